@@ -1191,6 +1191,25 @@ def g4_stated_lengths(ctx: Ctx):
         ctx.check(isinstance(got, Obj) and got.kind == 'ListType' and got.fields['length'] is None, TI, fs, f'{cls}._visit_list_slice',
                   f'a slice of a list of {"length " + str(known) if known else "unknown length"} has no static length',
                   f'answers {got!r}: `XS[0:n]` of a captured three-element XS is reported three long whatever n is')
+    # (c) the unified type of two list types is also the type of a value that may be either (`A if c else ys`, a merge
+    # after a branch): the length it states is one both sides state.  The helper deciding it is evaluated on every pair.
+    funcs = _module_functions(ctx, TI)
+    ml = funcs.get('_merge_length')
+    uses = [k for k in calls_in(meths['_unify']) if call_name(k) == '_merge_length'] if '_unify' in meths else []
+    if ml is None or not uses:
+        raise ShapeError('the length of a unified list type is no longer decided by _merge_length in _unify')
+    n_, m_ = Obj('NamedId', label='n'), Obj('NamedId', label='m')
+    vals = [3, 2, n_, m_, None]
+    bad = None
+    for a, b in itertools.product(vals, repeat=2):
+        got = Interp(funcs, is_a=lambda k, c: k == c).call_function(ml, [a, b])
+        if got is not None and not (got == a and got == b) and bad is None:
+            sh = lambda v: v.fields['label'] if isinstance(v, Obj) else v  # noqa: E731
+            bad = f'lengths {sh(a)} and {sh(b)} unify to {sh(got)}'
+    ctx.check(bad is None, TI, ml, '_merge_length', 'two list types unify to a length only if both state that length (25 pairs)',
+              (bad or '') + ': `zs = A if c else B` with three and two elements is typed three long, and a call returning `A if c else ys` gets the static size 3')
+    for k in uses:
+        ctx.check([norm(a) for a in k.args] == ['a_ty.length', 'b_ty.length'], TI, k, f'{cls}._unify', 'the two lengths unified are those of the two list types', f'got {norm(k)}')
 
 
 def _no_false_length(got, want) -> bool:
@@ -1269,6 +1288,17 @@ def g2_size_facts_unconditional(ctx: Ctx):
             ctx.check(ok, AS, evs[0].node if evs else f, f'{AS_CLS}.{m}', f'{subj} is read as conditionally executed (`with self._branch()`)',
                       (f'{subj} is read at the enclosing depth' if evs else f'{subj} is not visited') +
                       ': an assert or strict zip inside it would pin list sizes for executions that never reach it')
+    # a comprehension over several iterables: only the first is always evaluated -- a later one runs once per item of those
+    # before it, so not at all over an empty one
+    f = meths['_visit_list_comp'][2]
+    ex = execute(f, {}, {}, loop_passes=1)
+    its = [e for e in ex.events if e.kind == 'call' and e.name == 'self._visit_expr' and e.args and show(e.args[0]) != 'e.elt']
+    first_only = lambda e: show(e.args[0]) == 'e.iterables[0]' or any('== 0' in show(g) and not show(g).startswith('not') for g in e.guards)  # noqa: E731
+    loose = [e for e in its if not _under_branch(e) and not first_only(e)]
+    ok = bool(its) and not loose and any(_under_branch(e) for e in its)
+    ctx.check(ok, AS, (loose[0].node if loose else f), f'{AS_CLS}._visit_list_comp', 'the iterables after the first are read as conditionally executed',
+              (f'`{show(loose[0].args[0])}` is read at the enclosing depth for every generator' if loose else 'no iterable is read under `with self._branch()`') +
+              ': `[x for x in xs for p in zip(a, b)]` merges len(a) and len(b) for the whole function although the zip never runs when xs is empty')
     # and / or: only the first operand is unconditional
     f = meths['_visit_naryop'][2]
     ex = execute(f, {}, {}, loop_passes=1)
@@ -1547,6 +1577,14 @@ RULES = [
 from ..selftest import Mutant  # noqa: E402
 
 MUTANTS = [
+    Mutant('unified-lists-keep-the-more-specific-length', 'fpy2/analysis/type_infer.py', "    if a == b:\n        return a\n    return None\n",
+           "    if isinstance(a, int):\n        return a\n    if isinstance(b, int):\n        return b\n    return a if a is not None else b\n", 'C13.G4',
+           'finding F124 before its repair: zs = A if c else B typed with the length of A'),
+    Mutant('later-generators-read-as-unconditional', AS, "            if i == 0:\n                ty = self._visit_expr(iterable, ctx)\n            else:\n                with self._branch():\n                    ty = self._visit_expr(iterable, ctx)\n",
+           "            ty = self._visit_expr(iterable, ctx)\n", 'C13.G2',
+           'finding F123 before its repair: [x for x in xs for p in zip(a, b)] merges len(a) and len(b) although the zip never runs over an empty xs'),
+    Mutant('every-generator-read-as-conditional', AS, "            if i == 0:\n                ty = self._visit_expr(iterable, ctx)\n            else:\n                with self._branch():\n                    ty = self._visit_expr(iterable, ctx)\n",
+           "            with self._branch():\n                ty = self._visit_expr(iterable, ctx)\n", 'C13.G2', 'fewer facts, none wrong', expect='silent'),
     Mutant('loop-fixpoint-compares-constants-with-!=', PE, "                if not _same_element(new, old):", "                if new != old:", 'C13.D2',
            'finding F109 before its repair: simplify never returns on a loop carrying a constant NaN'),
     Mutant('constant-list-not-unpacked', PE, "                if isinstance(val, (tuple, list)) and len(val) == len(binding.elts):\n                    for elt, v in zip(binding.elts, val):\n                        self._visit_binding(site, elt, v)\n                else:\n                    self._clear_binding(site, binding)\n",
